@@ -1228,3 +1228,20 @@ def _defaults_vs_shorthand(repo, ob, failure):
 
 
 GENERATORS.insert(0, ("C11.defaults.", _defaults_vs_shorthand))
+
+
+def _instance_defaults(repo, ob, failure):
+    """<defaults> apply to a single-shape reuse instance as to the hand-written shape"""
+    import re as _re
+    doc = '<svg><defaults><rect rx="2" class="dflt"/></defaults><specs><rect id="t" wh="$w"/></specs><rect wh="8"/><reuse href="#t" w="8" y="10"/></svg>'
+    r = run_svgdx(repo, doc)
+    if r["rc"] != 0:
+        return None
+    body = r["out"].split("</style>")[-1]
+    m = _re.search(r'<rect y="10"[^>]*>', body)
+    if not m or 'rx="2"' not in m.group(0) or "dflt" not in m.group(0):
+        return {"input": doc, "observed": "instance written as %s" % (m.group(0) if m else body[-120:]), "expected": 'rx="2" and class dflt on the instance, as on the hand-written rect'}
+    return None
+
+
+GENERATORS.insert(0, ("C18.instance.", _instance_defaults))
